@@ -34,6 +34,13 @@ JudgeLoad(ms, tol, els) ==
   THEN (IF els = [k \in 1..Len(ms) |-> ToString(k)] THEN "ok" ELSE "fallback-to-type-numbers-for-all-types")
   ELSE JudgeGuess(ms, tol, els, "no")
 
+\* write/read cycle: a structure built from elements (default masses) is written as LAMMPS data and read back; what the
+\* reader may answer is what it may answer for the tabulated masses of those elements (so every distinguishable element
+\* comes back unchanged)
+JudgeCycle(elin, tol, els) ==
+  IF \E k \in 1..Len(elin) : ~\E i \in 1..Len(Table) : Table[i].el = elin[k] THEN "blocked:element-not-in-the-table"
+  ELSE JudgeLoad([k \in 1..Len(elin) |-> Table[CHOOSE i \in 1..Len(Table) : Table[i].el = elin[k]].m], tol, els)
+
 \* an element is distinguishable when no other element lies within 2*tol of its mass
 Distinguishable(i, tol) == \A j \in 1..Len(Table) : j # i => AbsI(Table[i].m - Table[j].m) >= 2 * tol
 =============================================================================
